@@ -77,6 +77,13 @@ func newFaultSpec(rng *mon.RNG, mode string) *faultSpec {
 	return s
 }
 
+func (s *faultSpec) lateRefMode() int {
+	if s.decrypt {
+		return 0 // the reference run produces the document
+	}
+	return 1
+}
+
 func (s *faultSpec) kind() string { return s.mode }
 func (s *faultSpec) desc() string { return s.descStr }
 func (s *faultSpec) sig(ref, got outcome) string {
